@@ -581,6 +581,11 @@ pub fn run_generic(ctx: &mut Ctx, run: &GenericRun, kind: &str) {
             judge_model(ctx, run, kind, &ms, false);
         }
     }
+    run_generic_no_replay(ctx, run, kind)
+}
+
+/// the generated part only (for a second generator configuration within one check)
+pub fn run_generic_no_replay(ctx: &mut Ctx, run: &GenericRun, kind: &str) {
     let mut drv = Driver::new(ctx.seed, run.salt, run.stream_len);
     let chunk = 2000;
     let mut done = 0;
